@@ -66,7 +66,10 @@ func init() {
 }
 
 var paramNames = []string{"A", "B", "AB", "a", "version", "X_1", "x-y", "0"}
-var badNames = []string{"", "a b", "a\n", "é", "{A}", "a.b", "a}", "A ", "ñ"}
+// invalid names: besides the obvious ones, every ASCII neighbour of the allowed ranges
+// [a-z] [A-Z] [0-9] _ - (a sloppy character class such as [A-z] or [0-:] lets exactly these through)
+var badNames = []string{"", "a b", "a\n", "é", "{A}", "a.b", "a}", "A ", "ñ",
+	"A[0]", "A\\B", "A]", "A^B", "A`B", "A@B", "a{b", "a|b", "A/B", "A:B", "A;B", "A,B", "A+B", "A.", "A~", "A'B", "A\"B", "A*", "A=B", "A\tB", "A\x00B", "A\x7fB"}
 
 func markerText(rng *Rng, names []string) string {
 	var sb strings.Builder
@@ -180,7 +183,7 @@ func runC18(r *Runner, tier string, rng *Rng) {
 		}
 	}
 	flush()
-	r.St.Rule = "layouts whose every string field (also fields that must not change) carries markers: known, unknown, adjacent, nested-looking ({{A}}, {A{B}}), with 0-6 parameters incl. invalid names and values that contain markers; compared: the whole returned layout and the caller's layout after the call; plus the replacer alone on marker-laden texts. Class = (number of parameters, validity, outcome prefix)."
+	r.St.Rule = "layouts whose every string field (also fields that must not change) carries markers: known, unknown, adjacent, nested-looking ({{A}}, {A{B}}), with 0-6 parameters incl. invalid names (among them every ASCII neighbour of the allowed character ranges) and values that contain markers; compared: the whole returned layout and the caller's layout after the call; plus the replacer alone on marker-laden texts. Class = (number of parameters, validity, outcome prefix)."
 }
 
 func isValidName(s string) bool {
